@@ -273,7 +273,9 @@ Definition proj (l : list event) : list sev := flat_map proj1 l.
    and the map_err closures between it and the root (innermost first) *)
 Definition next_ans (rs : list rans) : rans := match rs with [] => ROk | a :: _ => a end.
 
-Fixpoint leaves (e : sexpr) : list (nat * rans * list mapper) :=
+Definition leaf_t := (nat * rans * list mapper)%type.
+
+Fixpoint leaves (e : sexpr) : list leaf_t :=
   match e with
   | Leaf id rs _ => [(id, next_ans rs, [])]
   | FnSvc _ _ => []
@@ -288,7 +290,7 @@ Definition is_rerr (r : rans) : bool := match r with RErr _ => true | _ => false
 Definition is_rpending (r : rans) : bool := match r with RPending => true | _ => false end.
 
 (* the leaves polled by one poll_ready: all of them, or up to and including the first that errs *)
-Fixpoint polled (ls : list (nat * rans * list mapper)) : list (nat * rans * list mapper) :=
+Fixpoint polled (ls : list leaf_t) : list leaf_t :=
   match ls with
   | [] => []
   | (id, r, ms) :: t => (id, r, ms) :: if is_rerr r then [] else polled t
@@ -298,10 +300,48 @@ Definition ready_evs (l : list event) : list event :=
   filter (fun ev => match ev with EvReady _ _ _ => true | _ => false end) l.
 
 (* expected answer of poll_ready from the leaves' next answers *)
-Fixpoint conj_ready (ls : list (nat * rans * list mapper)) : rans :=
+Fixpoint conj_ready (ls : list leaf_t) : rans :=
   match ls with
   | [] => ROk
   | (_, RErr x, ms) :: _ => RErr (fold_left (fun v m => app_m m v) ms x)
   | (_, RPending, _) :: t => match conj_ready t with RErr x => RErr x | _ => RPending end
   | (_, ROk, _) :: t => conj_ready t
   end.
+
+(* the readiness event a leaf emits when polled with waker w *)
+Definition ev_of (w : nat) (x : leaf_t) : event := let '(id, a, _) := x in EvReady id w a.
+
+(* ---- per-poll view of driving a future (C12) ---- *)
+(* the polls of the executor: (waker, result, events) of each poll up to the first non-Pending *)
+Fixpoint polls (n w : nat) (f : sfut) : list (nat * pres * list event) :=
+  match n with
+  | O => []
+  | S n' =>
+      let '(f', r, l) := poll f w in
+      (w, r, l) :: match r with PPending => polls n' (S w) f' | _ => [] end
+  end.
+
+(* events a poll with waker w may emit: leaf-future polls with THAT waker which are not polls
+   after completion, calls of later stages, closure applications *)
+Definition okev (w : nat) (ev : event) : Prop :=
+  match ev with
+  | EvPoll _ w' _ => w' = w
+  | EvCall _ _ | EvMap _ _ _ => True
+  | _ => False
+  end.
+
+(* the last thing that happened in the poll: a leaf future answered Pending to waker w *)
+Definition ends_pending (w : nat) (l : list event) : Prop :=
+  exists l0 id, l = l0 ++ [EvPoll id w PPending].
+
+Definition good_poll (x : nat * pres * list event) : Prop :=
+  let '(w, r, l) := x in
+  r <> PPanic /\ Forall (okev w) l /\ (r = PPending -> ends_pending w l).
+
+(* ---- the family of scripted leaf behaviours used by the correspondence run ----
+   (theorems quantify over ALL functions Z -> nat * res; this family is what the case lines of
+   the driver and of the harness can express) *)
+Record behspec := { b_d : Z; b_dm : Z; b_ec : Z; b_m : mapper }.
+Definition beh_of (b : behspec) (req : Z) : nat * res :=
+  (Z.to_nat ((b_d b + b_dm b * req) mod 3),
+   if (0 <=? b_ec b) && (req mod 3 =? b_ec b) then Err (100 + req) else Ok (app_m (b_m b) req)).
